@@ -26,17 +26,15 @@ ConfFor(P, drv) ==
 \*      k is renamed in the clone, the clone of the sibling still calls the old name
 \*  (b) dup with subgraph when a module imports the callee at module level: only routine-level imports of a clone are
 \*      re-pointed (a TODO in DuplicateKernel._rename_calls), the clone calls a name it does not import
-\*  (c) dep on a module that is not renamed (it holds a driver) and has a routine outside the graph: the module-level
-\*      import is re-pointed to the suffixed names, the unprocessed routine keeps calling the old one
-\*  (d) wrap while a module holds a routine outside the graph that calls a wrapped routine (e.g. after rm took its
-\*      caller out of the graph): processed callers import the new module, the unprocessed routine of the same
-\*      (written) file keeps the external call
+\*  (c) dep or wrap while a module that is a node of the graph (or holds one) also holds a routine that is NOT in the
+\*      graph (never reached, or taken out by rm): the processed routines and the module-level imports are re-pointed
+\*      to the new names, the bystander in the same -- written -- file keeps calling / importing the old ones
+\*      (seen for: a driver module with an unused routine; rm followed by wrap; dup + rm followed by dep)
+NoBystanders ==
+  \A m \in ({n.scope : n \in ProcNodes(G)} \cup {n.local : n \in {x \in G.nodes : x.kind = "mod"}}) \ {""} :
+     \A pr \in Procs(S.P) : pr.mod = m => ItemOfProc(pr) \in G.nodes
 Pre(o) ==
-  /\ o.op = "wrap" => \A m \in ({n.scope : n \in ProcNodes(G)} \cup {n.local : n \in {x \in G.nodes : x.kind = "mod"}}) \ {""} :
-                          \A pr \in Procs(S.P) : pr.mod = m => ItemOfProc(pr) \in G.nodes
-  /\ o.op = "dep" => \A m \in {n.scope : n \in ProcNodes(G)} \ {""} :
-                         (\E n \in ProcNodes(G) : n.scope = m /\ RoleOf(S, n) # "kernel")
-                            => \A pr \in Procs(S.P) : pr.mod = m => ItemOfProc(pr) \in G.nodes
+  /\ o.op \in {"dep", "wrap"} => NoBystanders
   /\ (o.op = "dup" /\ o.sub) => \A m \in Mods(S.P) : m.imports = <<>>
   /\ o.op = "dup" => \A q \in {n \in ProcNodes(G) : n.local = o.k /\ n.scope # ""} :
                      \A pr \in Procs(S.P) : (pr.mod = q.scope /\ pr.name # o.k) => o.k \notin Range(pr.calls)
